@@ -73,3 +73,22 @@ def c04_deep(run, mod):
         run.obligations.append({"name": "branches nested %d deep are read, built and traversed" % depth, "kind": "run of the implementation in a child process", "discharged": bool(ok)})
         if not ok:
             run.failing.append({"check": run.pid + ".deep_nesting", "input": "C + (C * %d + ) * %d" % (depth, depth), "observed": row, "rc": rc, "why": err[-200:]})
+
+
+def big_families(run, mod):
+    """large but shallow molecules go through read + trace + build + walk + write (C01's round trip at sizes the Coq evaluation does not reach)"""
+    for fam, n in (("chain", 70000), ("branches", 30000), ("comb", 8000), ("dot_rings", 9000), ("nested8", 9000), ("brackets", 3000)):
+        try:
+            r = subprocess.run([os.path.join(mod.BIN, "stack"), fam, str(n)], stdout=subprocess.PIPE, stderr=subprocess.PIPE, text=True, timeout=300, env=mod.ENV)
+            rc, out, err = r.returncode, r.stdout, r.stderr
+        except subprocess.TimeoutExpired:
+            rc, out, err = 124, "", "timeout"
+        row = None
+        for line in out.splitlines():
+            if line.startswith("{"):
+                try: row = json.loads(line)
+                except Exception: pass
+        ok = rc == 0 and row is not None and row.get("ok")
+        run.obligations.append({"name": "family %s with n=%d is read, built, traversed and written" % (fam, n), "kind": "run of the implementation in a child process", "discharged": bool(ok)})
+        if not ok:
+            run.failing.append({"check": run.pid + ".large_molecule", "input": "%s n=%d" % (fam, n), "observed": row, "rc": rc, "why": err[-200:]})
